@@ -8,7 +8,7 @@ from vlib import core, dom, rescorr
 
 ID = "C03"
 GEN = ["flowprops", "reservoir"]
-PROPS = ["C03_massbalance.v", "C03_recovery_monotone.v", "C09_constructor.v", "C03_flux_branch.v"]
+PROPS = ["C03_massbalance.v", "C03_recovery_monotone.v", "C09_constructor.v", "C03_flux_branch.v", "C03_inplace_branch.v"]
 
 
 def run(ctx):
@@ -55,6 +55,10 @@ def run(ctx):
                     c = dict(kind="single", table=tb, pi=pi, pf=pf, nx=nx, times=t)
                     if rev:
                         c["reverse_rows"] = True
+                    if sched_kind == "stepdown" and not rev:
+                        # ... on a reservoir object that was built and run with other settings (nx + 7 nodes, other pressures and
+                        # flow properties) and whose fields were then re-assigned: same recoveries as a freshly built one
+                        c["reassign"] = True
                     if sched_kind == "stepdown":
                         c["sched"] = list(np.where(t < 0.2, pf + 0.5 * (pi - pf), np.where(t < 0.5, pf + 0.25 * (pi - pf), pf)))
                     elif sched_kind == "arbitrary":
@@ -64,6 +68,8 @@ def run(ctx):
                     im = rescorr.run_impl(c)
                     ev += 1
                     inp = dict(table=tname, schedule=sched_kind, p_frac_over_p_initial=ratio, nx=nx, nt=nt)
+                    if c.get("reassign"):
+                        inp["object"] = "built and run with nx+7 nodes and other pressures / flow properties, then its fields re-assigned before simulate"
                     if "rf" not in im:
                         bad("simulation fails", inp, im.get("error"))
                         break
@@ -144,15 +150,18 @@ def run(ctx):
         plat = []
         for nx in nxs:
             t = np.linspace(0, np.sqrt(12.0), 10 * nx) ** 2  # fine in time: the time quadrature is not under test
-            im = rescorr.run_impl(dict(kind="ideal", pi=9000.0, pf=9000.0 * ratio, nx=nx, times=t))
+            # (the middle ratio: on an object built with other settings whose fields are then re-assigned)
+            reas = ratio == 0.9
+            im = rescorr.run_impl(dict(kind="ideal", pi=9000.0, pf=9000.0 * ratio, nx=nx, times=t, **(dict(reassign=True) if reas else {})))
             ev += 1
             rf = im["rf"]
             if rf[0] != 0.0 or np.any(np.diff(rf) < -1e-12):
-                bad("ideal-gas recovery does not start at zero / decreases", dict(ratio=ratio, nx=nx), float(np.diff(rf).min()))
+                bad("ideal-gas recovery does not start at zero / decreases", dict(ratio=ratio, nx=nx, fields_reassigned=reas), float(np.diff(rf).min()))
             plat.append(float(rf[-1] / (1 - ratio)))
         report.append(dict(ideal_plateau_over_expected=plat, ratio=ratio))
         if abs(plat[0] - 1) > 1.5 / nxs[0] or any(abs(b - 1) > 0.75 * abs(a - 1) + 1e-6 for a, b in zip(plat, plat[1:])):
-            bad("ideal-gas recovery does not plateau at 1 - p_frac/p_initial (to first order, shrinking under refinement)", dict(ratio=ratio, nx_ladder=list(nxs)), plat)
+            bad("ideal-gas recovery does not plateau at 1 - p_frac/p_initial (to first order, shrinking under refinement)",
+                dict(ratio=ratio, nx_ladder=list(nxs), fields_reassigned_after_an_earlier_run=(ratio == 0.9)), plat)
     # K4 is printed only while its recorded witness still reproduces on the implementation
     if k4_known:
         tbw = rescorr.shipped_gas(stride=4)
